@@ -413,7 +413,10 @@ def validation_cases(binary):
     add("name-without-dot", lambda c: c.update(name="nodot"), "exit")
     add("name-with-dot-at-end", lambda c: c.update(name="host."), "serve")
     for label, bad in (("short", "abcd"), ("not-base64", "!!!not base64!!!" * 4), ("one-char-short", H[:-1]),
-                       ("too-long", H + "AAAA"), ("empty", "")):
+                       ("too-long", H + "AAAA"), ("empty", ""), ("blank-after", H + " "), ("blank-before", " " + H),
+                       ("newline-after", H + "\n"), ("tab-before", "\t" + H), ("blank-inside", H[:20] + " " + H[20:]),
+                       ("padded", H + "="), ("url-safe-alphabet", H.replace("+", "-").replace("/", "_")
+                                             if ("+" in H or "/" in H) else H[:-2] + "-_")):
         add("server-password-hash-" + label, lambda c, b=bad: c.update(password=b), "exit")
         add("operator-password-hash-" + label, lambda c, b=bad: c["operators"][0].update(password=b), "exit")
         add("user-password-hash-" + label, lambda c, b=bad: c["users"][0].update(password=b), "exit")
